@@ -31,7 +31,14 @@ def gen_attr(rng, used, types=ATTR_TYPES, messy_ints=True):
             text = rng.choice(FLOAT_TEXTS)
         else:
             lo, hi = (0, 200) if ty[0] in "UB" else (-100, 100)
-            n = rng.choice([0, 1, rng.randint(lo, hi)])
+            # the declared type's own range, with its extremes and the first integers a double cannot hold
+            bits = {"Byte": 8, "Int8": 8, "UInt8": 8, "Int16": 16, "UInt16": 16, "Int32": 32, "UInt32": 32,
+                    "Int64": 64, "UInt64": 64}.get(ty, 8)
+            tlo, thi = (0, 2 ** bits - 1) if ty[0] in "UB" else (-2 ** (bits - 1), 2 ** (bits - 1) - 1)
+            wide = [tlo, thi, thi - 1, tlo + 1, rng.randint(tlo, thi)]
+            if thi > 2 ** 53:
+                wide += [2 ** 53 + 1, thi - 1024 + 1]
+            n = rng.choice([0, 1, rng.randint(lo, hi)]) if rng.random() < 0.6 else rng.choice(wide)
             text = str(n)
             if messy_ints and rng.random() < 0.25:
                 text = rng.choice(["%03d" % abs(n) if n >= 0 else str(n), "+%d" % abs(n), " %d " % n, "0%d" % abs(n)])
